@@ -330,4 +330,35 @@ def planHeralds (kinds : List String) : List ℕ :=
     if k == "Heralded CNOT" || k == "Heralded CZ" then [1, 1]
     else if k == "PostProcessed CNOT" then [0, 0] else []
 
+/-! ### cQASM front-end: declared qubit variables → qubit indices
+    (`CQASMConverter._collect_qubit_list`, `_operand_to_qubit_indices`, `_get_qubit_names`) -/
+
+/-- a declared variable: `qubit[k] name` is `⟨name, some k⟩`, `qubit name` is `⟨name, none⟩` -/
+structure Decl where
+  name : String
+  size : Option ℕ
+deriving Repr, DecidableEq
+
+/-- the entries one declaration appends to `_qubit_list`: `(name, i)` for an array, `(name, -1)` for a
+single qubit -/
+def declQubits (d : Decl) : List (String × ℤ) :=
+  match d.size with
+  | some k => (List.range k).map fun i => (d.name, Int.ofNat i)
+  | none => [(d.name, -1)]
+
+/-- number of qubits a declaration contributes -/
+def declWidth (d : Decl) : ℕ := d.size.getD 1
+
+/-- `_collect_qubit_list`: qubit `k` of the processor is the `k`-th entry, declaration order -/
+def qubitList (ds : List Decl) : List (String × ℤ) := ds.flatMap declQubits
+
+/-- `_operand_to_qubit_indices` for one reference (`name[i]` is `(name, i)`, a bare `name` is `(name, -1)`):
+`list.index`, a `ValueError` (`none`) when the reference names no declared qubit -/
+def operandIndex (ds : List Decl) (ref : String × ℤ) : Option ℕ :=
+  if ref ∈ qubitList ds then some ((qubitList ds).idxOf ref) else none
+
+/-- `_get_qubit_names`: the port name of every qubit -/
+def qubitNames (ds : List Decl) : List String :=
+  (qubitList ds).map fun q => if q.2 ≥ 0 then q.1 ++ "[" ++ toString q.2 ++ "]" else q.1
+
 end PM.C20
